@@ -1,18 +1,8 @@
 (* Extract/Commands.v — the observation commands of the correspondence protocol.
    `run_cmd name args` returns the canonical observation line for one case. *)
 From TV Require Import Base.Prelude Base.Utf8 Base.Winnow Gen.Consts Extract.Show.
-From TV Require Import Model.Datetime Model.DatetimeStd.
+From TV Require Import Model.Datetime Model.DatetimeStd Model.Numbers Model.Tree Model.Parse Model.Document Model.Write Model.Encode.
 Require Import String.
-
-Definition show_date (d : date) : bytes :=
-  show_N (year d) ++ str "-" ++ show_N (month d) ++ str "-" ++ show_N (day d).
-Definition show_time (t : time) : bytes :=
-  show_N (hour t) ++ str ":" ++ show_N (minute t) ++ str ":" ++ show_N (second t) ++ str "." ++ show_N (nanosecond t).
-Definition show_offset (o : offset) : bytes :=
-  match o with OffZ => str "Z" | OffCustom m => str "C" ++ show_Z m end.
-Definition show_datetime (d : datetime) : bytes :=
-  str "dt(" ++ show_option show_date (d_date d) ++ str ";" ++ show_option show_time (d_time d)
-  ++ str ";" ++ show_option show_offset (d_offset d) ++ str ")".
 
 Definition first_some {A} (a b : option A) : option A := match a with Some _ => a | None => b end.
 
@@ -48,10 +38,40 @@ Definition cmd_dtp (args : list bytes) : bytes :=
   | _ => str "bad-args"
   end.
 
-Definition cmd_eq (a b : string) : bool := String.eqb a b.
+(* doc: parse a document; verdict, decoded tree, printed text of the unedited document *)
+Definition cmd_doc (s : bytes) : bytes :=
+  match parse_document s with
+  | POk d =>
+    str "ok tree=" ++ show_tbl (doc_root d)
+    ++ str " print=" ++ (match tbl_despan s (doc_root d), raw_despan s (doc_trailing d) with
+                         | Some r, Some t => show_hex (display_document r t)
+                         | _, _ => str "PANIC-despan"
+                         end)
+  | PErr _ _ => str "err"
+  | PPanic _ => str "PANIC-model"
+  end.
+
+(* val: Value::from_str; decoded value and its Display *)
+Definition cmd_val (s : bytes) : bytes :=
+  match parse_value_raw s with
+  | POk v =>
+    str "ok val=" ++ show_value v
+    ++ str " print=" ++ (match value_despan s (value_decorate v REmpty REmpty) with
+                         | Some v' => show_hex (display_value (match v' with
+                                                               | VScalar x r _ => VScalar x r decor_default
+                                                               | VArray a t c _ sp => VArray a t c decor_default sp
+                                                               | VInline i p im dt _ sp => VInline i p im dt decor_default sp
+                                                               end))
+                         | None => str "PANIC-despan"
+                         end)
+  | PErr _ _ => str "err"
+  | PPanic _ => str "PANIC-model"
+  end.
 
 Definition run_cmd (name : bytes) (args : list bytes) : bytes :=
   if bytes_eqb name (str "dt") then
     match args with [s] => cmd_dt s | _ => str "bad-args" end
   else if bytes_eqb name (str "dtp") then cmd_dtp args
+  else if bytes_eqb name (str "doc") then match args with [s] => cmd_doc s | _ => str "bad-args" end
+  else if bytes_eqb name (str "val") then match args with [s] => cmd_val s | _ => str "bad-args" end
   else str "unknown-command".
